@@ -35,8 +35,8 @@ REQUIRED_PROBES = ["case.valid_run", "case.flag_no_exec", "case.invalid_config",
                    "case.missing_key_produced_later", "case.runspace_supplied", "case.runspace_malformed", "case.runspace_over_cap",
                    "case.missing_file", "case.usage_error", "case.failing_run"]
 CONFIG = {
-    "quick": {"runs": 700, "budget_s": 170, "timeout_s": 120},
-    "thorough": {"runs": 40000, "budget_s": 1600, "timeout_s": 120},
+    "quick": {"runs": 2500, "budget_s": 240, "timeout_s": 120},
+    "thorough": {"runs": 100000, "budget_s": 1600, "timeout_s": 120},
     "shrink_s": 40.0,
 }
 FLAGS = ["--validate", "--dry-run", "--run-space-dry-run"]
@@ -90,7 +90,7 @@ def generate(rng: random.Random, tier: str, seed: int) -> dict:
     # bias towards use-before-create: add a later producer for a required key
     rng.shuffle(kinds)
     for kind in kinds[: rng.randint(5, 8)]:
-        c = {"kind": kind, "trace_mode": rng.choice(["file", "dir"]), "flags": []}
+        c = {"kind": kind, "trace_mode": rng.choice(["file", "dir"]), "flags": [], "subprocess_crosscheck": rng.random() < 0.012}
         if kind == "flag_no_exec":
             c["flags"] = rng.sample(FLAGS, rng.randint(1, 2))
             c["with_set"] = rng.random() < 0.4
@@ -332,6 +332,8 @@ def run_case(sc: dict, c: dict, w, stats: dict, idx: int) -> list[dict]:
     out = []
     code = r["code"]
     where = f"case {label}: argv={argv[:6]}... exit={code} stderr={r['stderr'][:160]!r}"
+    if c.get("subprocess_crosscheck") and not faults and not isinstance(code, str):
+        _crosscheck_subprocess(w, name, argv, code, new_files, stats)
     if isinstance(code, str):
         out.append(oracles.V("cli_crash", label, where))
         return out
@@ -366,6 +368,33 @@ def run_case(sc: dict, c: dict, w, stats: dict, idx: int) -> list[dict]:
                 # "with runs after a failed run not started"
                 out.append(oracles.V("after_failure", f"{label}:later_run_started", f"{where}; {runs_started} runs started, failure injected in run index {expect['max_runs_started'] - 1}"))
     return out
+
+
+def _crosscheck_subprocess(w, name: str, argv: list[str], code, new_files: list[str], stats: dict) -> None:
+    """The in-process CLI must not be a different system: run the same command as a real
+    `python -m semantiva.cli` process in a copy of the inputs; exit code and the kinds of files written must agree.
+    A disagreement is a harness error (raises), never a violation."""
+    import shutil
+    import subprocess
+    import sys as _sys
+    sub = os.path.join(w.sandbox, f"sub_{name}")
+    os.makedirs(sub, exist_ok=True)
+    for fn in os.listdir(w.sandbox):
+        full = os.path.join(w.sandbox, fn)
+        if os.path.isfile(full) and fn not in new_files and (fn.startswith(name + ".") or fn.endswith((".csv", ".json"))):
+            shutil.copy(full, sub)
+    env = dict(os.environ)
+    p = subprocess.run([_sys.executable, "-m", "semantiva.cli"] + argv, cwd=sub, env=env, capture_output=True, text=True)
+    produced = sorted(os.path.relpath(os.path.join(r, f), sub) for r, _d, fs in os.walk(sub) for f in fs)
+    inputs = {f for f in produced if f.startswith(name + ".yaml") or f.endswith((".csv", ".json"))}
+    # sink files may pre-exist in the shared sandbox (same name from an earlier case), so only trace files are compared
+    kinds_sub = sorted({"trace" for f in produced if f not in inputs and f.endswith(".jsonl")})
+    kinds_in = sorted({"trace" for f in new_files if f.endswith(".jsonl")})
+    stats["probe.subprocess_crosscheck"] = stats.get("probe.subprocess_crosscheck", 0) + 1
+    shutil.rmtree(sub, ignore_errors=True)
+    if p.returncode != code or kinds_sub != kinds_in:
+        raise RuntimeError(f"in-process CLI and subprocess disagree for {argv}: exit {code} vs {p.returncode}; files {kinds_in} vs {kinds_sub}; "
+                           f"stderr={p.stderr[-300:]!r}")
 
 
 def execute(sc: dict, seed: int) -> dict:
